@@ -40,6 +40,10 @@ const DEFAULT_COMPRESSION_LEVEL: u32 = 5;
 /// Default value which seems advised by brotli libraries
 const BROTLI_LOG_WINDOW: u32 = 22;
 
+/// First byte (7 low bits) of a brotli stream using the "large window" extension
+/// (window of up to 2^30 bytes instead of at most 2^24 in RFC 7932)
+const BROTLI_LARGE_WINDOW_MARKER: u8 = 0b001_0001;
+
 pub struct CompressionConfig {
     compression_level: u32,
 }
@@ -199,7 +203,7 @@ impl<'a, R: 'a + Read> CompressionLayerReader<'a, R> {
     /// On error, `inner` is given back to the caller
     fn new_decompressor_at<S: Read + Seek>(
         &self,
-        inner: S,
+        mut inner: S,
         uncompressed_pos: u64,
     ) -> Result<brotli::Decompressor<Take<S>>, (S, Error)> {
         // Ensure it's a starting position
@@ -226,6 +230,33 @@ impl<'a, R: 'a + Read> CompressionLayerReader<'a, R> {
                         Ok(size) => size as usize,
                         Err(err) => return Err((inner, err)),
                     };
+                // The compressed bytes come from the archive. A "large window" brotli
+                // stream (never emitted by the writer, which uses `BROTLI_LOG_WINDOW`)
+                // makes the decoder allocate a window of up to 1 GiB as soon as its
+                // first bytes are read: refuse it
+                if compressed_block_size > 0 {
+                    let mut first_byte = [0u8; 1];
+                    let peeked = inner.read(&mut first_byte).and_then(|read| {
+                        if read == 1 {
+                            inner.seek(SeekFrom::Current(-1))?;
+                        }
+                        Ok(read)
+                    });
+                    match peeked {
+                        Err(err) => return Err((inner, err.into())),
+                        Ok(1) if first_byte[0] & 0x7f == BROTLI_LARGE_WINDOW_MARKER => {
+                            return Err((
+                                inner,
+                                io::Error::new(
+                                    io::ErrorKind::InvalidData,
+                                    "Large window brotli streams are not supported",
+                                )
+                                .into(),
+                            ));
+                        }
+                        Ok(_) => {}
+                    }
+                }
                 Ok(brotli::Decompressor::new(
                     // Make the Decompressor work only on the compressed block's bytes, no more
                     inner.take(compressed_block_size as u64),
@@ -942,7 +973,7 @@ impl<'a, R: 'a + Read> Read for CompressionLayerFailSafeReader<'a, R> {
                     cache: vec![0u8; FAIL_SAFE_BUFFER_SIZE],
                     read_offset: 0,
                     cache_filled_offset: 0,
-                    state: Box::new(BrotliState::new(
+                    state: Box::new(BrotliState::new_strict(
                         StandardAlloc::default(),
                         StandardAlloc::default(),
                         StandardAlloc::default(),
@@ -1035,7 +1066,7 @@ impl<'a, R: 'a + Read> Read for CompressionLayerFailSafeReader<'a, R> {
                             *read_offset += input_offset;
 
                             // Reset others
-                            *state = Box::new(BrotliState::new(
+                            *state = Box::new(BrotliState::new_strict(
                                 StandardAlloc::default(),
                                 StandardAlloc::default(),
                                 StandardAlloc::default(),
